@@ -253,3 +253,71 @@ func (w *world) decodeModelOnly(entry string, o optSet, rs readerSpec) (decOut, 
 	}
 	return decOut{}, model, err
 }
+
+// maskAccumText rewrites a canonical File text so that the Distance of every
+// record message that carries a valid compressed_speed_distance reads u0.
+// That value continues a process-wide running sum (known findings
+// accum_history / accum_per_process, judged by C08 and C18): checks whose
+// property does not concern accumulated values compare modulo it, so that an
+// implementation-only call made in between (which moves the library's
+// accumulators but not the model's mirror) cannot raise a false alarm.
+func maskAccumText(canon string) string {
+	rt := reflect.TypeOf(fit.RecordMsg{})
+	di, ci := -1, -1
+	for i := 0; i < rt.NumField(); i++ {
+		switch rt.Field(i).Name {
+		case "Distance":
+			di = i
+		case "CompressedSpeedDistance":
+			ci = i
+		}
+	}
+	tag := strconv.Itoa(int(fit.MesgNumRecord)) + "["
+	if di < 0 || ci < 0 || !strings.Contains(canon, tag) {
+		return canon
+	}
+	var out strings.Builder
+	rest := canon
+	for {
+		k := strings.Index(rest, tag)
+		// a record message starts after ':' or '&' (slot separator / message separator)
+		for k > 0 && rest[k-1] != ':' && rest[k-1] != '&' {
+			n := strings.Index(rest[k+1:], tag)
+			if n < 0 {
+				k = -1
+				break
+			}
+			k += 1 + n
+		}
+		if k < 0 {
+			out.WriteString(rest)
+			break
+		}
+		end := strings.IndexByte(rest[k:], ']')
+		if end < 0 {
+			out.WriteString(rest)
+			break
+		}
+		body := rest[k+len(tag) : k+end]
+		fs := strings.Split(body, ";")
+		if len(fs) == rt.NumField() && fs[ci] != "n" && fs[ci] != "l(u255,u255,u255)" {
+			fs[di] = "u0"
+		}
+		out.WriteString(rest[:k+len(tag)])
+		out.WriteString(strings.Join(fs, ";"))
+		rest = rest[k+end:]
+	}
+	return out.String()
+}
+
+// observableMasked is observable() modulo the accumulated record Distance.
+func (o decOut) observableMasked() string {
+	if o.Panic != "" {
+		return "PANIC"
+	}
+	fs := make([]string, len(o.Files))
+	for i, f := range o.Files {
+		fs[i] = maskAccumText(f)
+	}
+	return fmt.Sprintf("err=%d pos=%d hdr=%s files=%s", o.ErrClass, o.Pos, o.Hdr, strings.Join(fs, " ## "))
+}
